@@ -321,6 +321,10 @@ func (d *dagStoreImpl) Rename(oldID, newID string) error {
 	if err != nil {
 		return err
 	}
+	if newLoc != oldLoc && exists(newLoc) {
+		// never overwrite another DAG
+		return fmt.Errorf("%w: %s", errDAGFileAlreadyExists, newLoc)
+	}
 	return os.Rename(oldLoc, newLoc)
 }
 
